@@ -183,6 +183,35 @@ def build_world(ctx, wi, c, profile, pad=False):
                      "dir": profile["dir"],
                      "filename": ("mocks" if g["layout"] == "perpkg" else "mock_{{.InterfaceName}}") + suffix})
         # a root-level structname other than the default keeps in-package mocks of unexported names apart
+    # naming variant (worlds without `configs` entries): dir / filename / pkgname pipe the cross-referenced variables
+    # (StructName is itself a template) through functions that are NOT idempotent, so the order in which the
+    # templated parameters are resolved matters if the implementation lets it
+    nm = 0 if g["ents"] > 0 else 1 + (wi + ctx.seed) % 2
+    if nm and not (profile and profile.get("cwd")):
+        per = g["layout"] == "periface"
+        if profile is None:
+            conf["filename"] = ({1: "{{.StructName | firstLower}}.txt",
+                                 2: "{{.InterfaceName | snakecase}}_{{.StructName | trimPrefix \"Mock\" | firstLower}}.txt"}[nm] if per
+                                else {1: "{{.SrcPackageName | firstUpper}}Mocks.txt", 2: "{{.SrcPackageName | upper | trimSuffix \"X\"}}_all.txt"}[nm])
+            conf["dir"] = {1: "out/{{.SrcPackagePath | replaceAll \"/\" \"_\"}}", 2: "out/{{.SrcPackagePath | trimPrefix \"example.com/\"}}"}[nm]
+            conf["pkgname"] = "{{.SrcPackageName | upper}}"
+        elif per:
+            conf["filename"] = {1: "mock_{{.StructName | firstLower}}", 2: "{{.InterfaceName | snakecase}}_{{.StructName | trimPrefix \"Mock\" | firstLower}}"}[nm] + suffix
+        else:
+            conf["filename"] = {1: "{{.SrcPackageName | firstLower}}_mocks", 2: "{{.SrcPackageName | kebabcase | replaceAll \"-\" \"_\"}}_mocks"}[nm] + suffix
+    # one interface of every configured package sets template-data keys that neither the package nor the top level
+    # sets (a file-level key of the built-in templates; a free key for the probe, which dumps file-level data per file)
+    if conf.get("all") is True or conf.get("include-interface-regex") == ".*":
+        extra_data = {"only-on-this-mock": f"w{wi}"} if profile is None else {"mock-build-tags": "verifonly"}
+        for k in range(W["n"]):
+            path = f"{MOD}/{wdir}/{rels[k]}"
+            if path in pkgs and W["on"][k]:
+                ifs = pkgs[path].setdefault("interfaces", {})
+                ent = ifs.get(f"I{LAB[k]}1")
+                if ent is None:
+                    ifs[f"I{LAB[k]}1"] = {"config": {"template-data": dict(extra_data)}}
+                else:
+                    ent["configs"][0]["template-data"] = dict(extra_data)
     files[".mockery.yml"] = json.dumps(conf, indent=1)
     (base / "go.mod").write_text(gomod)
     if profile is not None:
@@ -295,6 +324,15 @@ def project_run(w, trace, code):
         j = int(iface[-1]) if iface[-1:].isdigit() else 0
         return k, j
 
+    # which model file (k, j) an output path is: learnt from the run's own Collect events (the file NAMES are a
+    # matter of the naming variant; the model only says which mocks share a file)
+    perpkg = w["c"]["W"]["g"]["layout"] == "perpkg"
+    file_id = {}
+    for e in trace:
+        if e.get("ev") == "Collect":
+            k, j = kj(e["pkg"], e["iface"])
+            fp = os.path.normpath(e["file"] if os.path.isabs(e["file"]) else os.path.join(str(w["cwd"]), e["file"]))
+            file_id.setdefault(fp, (k, 0 if perpkg else j))
     for e in trace:
         ev = e.get("ev")
         if ev == "Select":
@@ -307,7 +345,7 @@ def project_run(w, trace, code):
             out.append({"op": "collect", "k": k, "j": j, "e": ent})
         elif ev in ("FileBegin", "Write"):
             fp = os.path.normpath(e["file"] if os.path.isabs(e["file"]) else os.path.join(str(w["cwd"]), e["file"]))
-            fk, fj = w["fmap"].get(fp, (0, 9))
+            fk, fj = file_id.get(fp, (0, 9))
             out.append({"op": "filebegin" if ev == "FileBegin" else "write", "fk": fk, "fj": fj})
         elif ev == "Stage" and not e.get("ok"):
             out.append({"op": "stagefail", "fk": -1, "fj": -1, "stage": e.get("stage", "")})
